@@ -85,6 +85,26 @@ theorem linearSeparated_affine_exact (ext : Bool) (sep : List (List K)) (c0 : K)
   exact interpFlat_affine ext sep.reverse c0 c.reverse p.reverse (by simp [hc]) (by simp [hp])
     (fun ax h => hax ax (List.mem_reverse.mp h)) hin
 
+/-- **Linear interpolation reproduces affine functions, in hcipy's own conventions**: the field `f(q) = c0 + c·q`
+sampled on the grid (hcipy point order), interpolated at `p = [x, y, …]`, gives `f(p)` — no reversed lists in the
+statement. -/
+theorem linearSeparated_affine_exact_direct (ext : Bool) (sep : List (List K)) (c0 : K) (c p : List K)
+    (hc : c.length = sep.length) (hp : p.length = sep.length)
+    (hax : ∀ ax ∈ sep, 2 ≤ ax.length ∧ StrictMono ax)
+    (hin : ext = true ∨ InDomain sep.reverse p.reverse) :
+    linearSeparated ext sep ((gridPts sep).map (affine c0 c)) p = some (affine c0 c p) := by
+  have h1 : (gridPts sep).map (affine c0 c) = sampleAffine sep.reverse c0 c.reverse := by
+    rw [sampleAffine_eq_map sep.reverse c0 c.reverse (by simp [hc])]
+    simp only [gridPts, List.map_map]
+    apply List.map_congr_left
+    intro t ht
+    have hl : t.length = c.length := by rw [tensorPts_length _ _ ht, List.length_reverse, hc]
+    simp only [Function.comp]
+    have := affine_reverse c0 c t.reverse (by simp [hl])
+    rw [List.reverse_reverse] at this
+    exact this.symm
+  rw [h1, linearSeparated_affine_exact ext sep c0 c p hc hp hax hin, affine_reverse c0 c p (by rw [hc, hp])]
+
 /-- **1-D: the interpolant returns the sample value at every knot**, for arbitrary values: for
 every pair (knot, value) of the table, interpolating at the knot gives the value. -/
 theorem interp1_hits_samples_ascending (ext : Bool) :
